@@ -437,7 +437,15 @@ def _pyname(n):
     if "s" in n:
         return n["s"]
     if "t" in n:
-        return tuple(1.5 if p is None else p for p in n["t"])
+        t = tuple(1.5 if p is None else p for p in n["t"])
+        if len(t) % 2 == 0:
+            # the same name as a ready-made MemoryMap.Name (when it is one): the spelling must not matter
+            from amaranth_soc.memory import MemoryMap
+            try:
+                return MemoryMap.Name(t)
+            except TypeError:
+                return t
+        return t
     return n["o"]
 
 
